@@ -924,3 +924,324 @@ func boundTo(fn, helper *ssa.Function, pred vpred) vpred {
 		return false
 	}
 }
+
+// ---- set-of-octets abstract execution over a region of a function ----
+
+// scalarExec walks the control flow of a function from a block with some SSA values bound to concrete small integers
+// (the elements of a finite abstract domain enumerated one by one): branch conditions, arithmetic and phis over the bound
+// values are decided; calls of functions of the package whose arguments are all decided are walked the same way for
+// their result. It stops at a Return (reporting its results as far as decided), or when it comes back to a block it
+// has been in ("loops": the region was left through its back edge). Everything it cannot decide makes it give up.
+type scalarExec struct {
+	pkg    *ssa.Package
+	steps  int
+	region *ssa.BasicBlock // the block the outermost walk started from
+}
+
+type execResult struct {
+	Returned bool    // a Return was reached
+	Results  []int64 // its decided results
+	Decided  []bool
+	Looped   bool // came back to a visited block
+	GaveUp   bool
+}
+
+func (x *scalarExec) value(v ssa.Value, env map[ssa.Value]int64, prev *ssa.BasicBlock, depth int) (int64, bool) {
+	if depth > 16 {
+		return 0, false
+	}
+	if k, ok := env[v]; ok {
+		return k, true
+	}
+	if k, ok := constIntOf(v); ok {
+		return k, true
+	}
+	if b, ok := constBool(v); ok {
+		if b {
+			return 1, true
+		}
+		return 0, true
+	}
+	narrow := func(k int64, t types.Type) int64 {
+		if bt, isB := t.Underlying().(*types.Basic); isB {
+			switch bt.Kind() {
+			case types.Uint8:
+				return k & 0xff
+			case types.Int8:
+				return int64(int8(k))
+			case types.Uint16:
+				return k & 0xffff
+			case types.Int16:
+				return int64(int16(k))
+			case types.Uint32:
+				return k & 0xffffffff
+			case types.Int32:
+				return int64(int32(k))
+			}
+		}
+		return k
+	}
+	switch t := v.(type) {
+	case *ssa.Convert:
+		k, ok := x.value(t.X, env, prev, depth+1)
+		return narrow(k, t.Type()), ok
+	case *ssa.UnOp:
+		if t.Op == token.NOT {
+			k, ok := x.value(t.X, env, prev, depth+1)
+			return 1 - k, ok
+		}
+		if t.Op == token.SUB {
+			k, ok := x.value(t.X, env, prev, depth+1)
+			return narrow(-k, t.Type()), ok
+		}
+	case *ssa.BinOp:
+		a, ok1 := x.value(t.X, env, prev, depth+1)
+		b, ok2 := x.value(t.Y, env, prev, depth+1)
+		if !ok1 || !ok2 {
+			return 0, false
+		}
+		tb := func(c bool) (int64, bool) {
+			if c {
+				return 1, true
+			}
+			return 0, true
+		}
+		switch t.Op {
+		case token.EQL:
+			return tb(a == b)
+		case token.NEQ:
+			return tb(a != b)
+		case token.LSS:
+			return tb(a < b)
+		case token.LEQ:
+			return tb(a <= b)
+		case token.GTR:
+			return tb(a > b)
+		case token.GEQ:
+			return tb(a >= b)
+		case token.ADD:
+			return narrow(a+b, t.Type()), true
+		case token.SUB:
+			return narrow(a-b, t.Type()), true
+		case token.MUL:
+			return narrow(a*b, t.Type()), true
+		case token.AND:
+			return a & b, true
+		case token.OR:
+			return a | b, true
+		case token.XOR:
+			return narrow(a^b, t.Type()), true
+		case token.AND_NOT:
+			return a &^ b, true
+		case token.SHL:
+			if b >= 0 && b < 63 {
+				return narrow(a<<uint(b), t.Type()), true
+			}
+		case token.SHR:
+			if b >= 0 && b < 63 {
+				return a >> uint(b), true
+			}
+		}
+	case *ssa.Call:
+		g := t.Call.StaticCallee()
+		if g == nil || g.Pkg != x.pkg || len(g.Blocks) == 0 || t.Call.IsInvoke() {
+			return 0, false
+		}
+		cenv := map[ssa.Value]int64{}
+		for i, a := range t.Call.Args {
+			k, ok := x.value(a, env, prev, depth+1)
+			if !ok || i >= len(g.Params) {
+				return 0, false
+			}
+			cenv[g.Params[i]] = k
+		}
+		res := x.run(g, g.Blocks[0], 0, cenv, depth+1)
+		if res.Returned && len(res.Results) == 1 && res.Decided[0] {
+			return res.Results[0], true
+		}
+	}
+	return 0, false
+}
+
+// run executes from instruction index start of block b.
+func (x *scalarExec) run(fn *ssa.Function, b *ssa.BasicBlock, start int, env map[ssa.Value]int64, depth int) execResult {
+	seen := map[*ssa.BasicBlock]bool{}
+	var prev *ssa.BasicBlock
+	for {
+		x.steps++
+		if x.steps > 4_000_000 || depth > 6 {
+			return execResult{GaveUp: true}
+		}
+		if seen[b] {
+			return execResult{Looped: true}
+		}
+		if depth == 0 && x.region != nil && b != x.region && b.Dominates(x.region) {
+			return execResult{Looped: true} // left the region through a back edge to an enclosing loop header
+		}
+		seen[b] = true
+		// phis of the block take the value of the edge taken
+		for _, in := range b.Instrs {
+			phi, ok := in.(*ssa.Phi)
+			if !ok {
+				break
+			}
+			if prev == nil {
+				continue
+			}
+			for i, p := range b.Preds {
+				if p == prev {
+					if k, ok := x.value(phi.Edges[i], env, nil, depth); ok {
+						env[phi] = k
+					} else {
+						delete(env, phi)
+					}
+				}
+			}
+		}
+		last := b.Instrs[len(b.Instrs)-1]
+		switch t := last.(type) {
+		case *ssa.Return:
+			res := execResult{Returned: true}
+			for _, rv := range t.Results {
+				k, ok := x.value(rv, env, prev, depth)
+				res.Results = append(res.Results, k)
+				res.Decided = append(res.Decided, ok)
+			}
+			return res
+		case *ssa.If:
+			k, ok := x.value(t.Cond, env, prev, depth)
+			if !ok {
+				return execResult{GaveUp: true}
+			}
+			prev = b
+			if k != 0 {
+				b = b.Succs[0]
+			} else {
+				b = b.Succs[1]
+			}
+		case *ssa.Jump:
+			prev = b
+			b = b.Succs[0]
+		default:
+			return execResult{GaveUp: true}
+		}
+		start = 0
+	}
+}
+
+// equalFoldsPairs: labels.go equal() declares two names different exactly when, at some position, the two octets
+// differ after A-Z have been mapped to a-z. Decided over the 256 x 256 pairs of octet values by walking the loop body
+// with the two octets bound (whatever the fold is written as: in place, in a helper, with |= or +=).
+func equalFoldsPairs(c *Ctx, r *Report, rule string) {
+	fn := c.ssaFunc("equal")
+	if fn == nil || len(fn.Params) != 2 {
+		r.cerr(rule, "equal", "function not found")
+		return
+	}
+	r.fn("equal")
+	var la, lb ssa.Value
+	allInstrs(fn, func(in ssa.Instruction) {
+		var xv ssa.Value
+		switch t := in.(type) {
+		case *ssa.Lookup:
+			xv = t.X
+		case *ssa.Index:
+			xv = t.X
+		default:
+			return
+		}
+		if xv == ssa.Value(fn.Params[0]) {
+			la = in.(ssa.Value)
+		}
+		if xv == ssa.Value(fn.Params[1]) {
+			lb = in.(ssa.Value)
+		}
+	})
+	var problems []string
+	if la == nil || lb == nil {
+		problems = append(problems, "the octets a[i] and b[i] are not read in equal")
+	} else {
+		idxOf := func(v ssa.Value) ssa.Value {
+			switch t := v.(type) {
+			case *ssa.Lookup:
+				return t.Index
+			case *ssa.Index:
+				return t.Index
+			}
+			return nil
+		}
+		if idxOf(la) != idxOf(lb) {
+			problems = append(problems, "the two names are not read at the same position")
+		}
+		start := la.(ssa.Instruction).Block()
+		if bb := lb.(ssa.Instruction).Block(); bb != start && !start.Dominates(bb) {
+			start = bb
+		}
+		fold := func(v int) int {
+			if v >= 'A' && v <= 'Z' {
+				return v + 32
+			}
+			return v
+		}
+		x := &scalarExec{pkg: fn.Pkg, region: start}
+		var wrong []string
+		gaveUp := false
+		for a := 0; a < 256 && len(wrong) < 4 && !gaveUp; a++ {
+			for b := 0; b < 256; b++ {
+				res := x.run(fn, start, 0, map[ssa.Value]int64{la: int64(a), lb: int64(b)}, 0)
+				if res.GaveUp {
+					gaveUp = true
+					break
+				}
+				saysDifferent := res.Returned && len(res.Results) == 1 && res.Decided[0] && res.Results[0] == 0
+				saysEqualNow := res.Returned && len(res.Results) == 1 && res.Decided[0] && res.Results[0] == 1
+				want := fold(a) != fold(b)
+				if saysDifferent != want || saysEqualNow {
+					wrong = append(wrong, fmt.Sprintf("%#x vs %#x: equal %s", a, b, map[bool]string{true: "reports a difference", false: "goes on as if they were the same"}[saysDifferent]))
+					if len(wrong) >= 4 {
+						break
+					}
+				}
+			}
+		}
+		if gaveUp {
+			r.undecided(rule, "equal", c.pos(fn.Pos()), "the comparison of one pair of octets could not be followed (a call outside the package, or a value that is not a function of the two octets)")
+			return
+		}
+		if len(wrong) > 0 {
+			problems = append(problems, "the two names are not compared octet by octet with exactly A-Z folded onto a-z: "+strings.Join(wrong, "; "))
+		}
+	}
+	// lengths: some test of len(a) against len(b) sends a difference to `return false`
+	lenTest := false
+	for _, b := range fn.Blocks {
+		ifi, ok := b.Instrs[len(b.Instrs)-1].(*ssa.If)
+		if !ok {
+			continue
+		}
+		atom, _ := condAtom(ifi.Cond)
+		bin, ok := atom.(*ssa.BinOp)
+		if !ok || (bin.Op != token.NEQ && bin.Op != token.EQL) {
+			continue
+		}
+		isLenOf := func(v ssa.Value, p ssa.Value) bool {
+			for o := range shallowOrigins(v) {
+				if call, ok := o.(*ssa.Call); ok && calleeNameSSA(&call.Call) == "builtin.len" && call.Call.Args[0] == p {
+					return true
+				}
+			}
+			return false
+		}
+		if (isLenOf(bin.X, fn.Params[0]) && isLenOf(bin.Y, fn.Params[1])) || (isLenOf(bin.X, fn.Params[1]) && isLenOf(bin.Y, fn.Params[0])) {
+			lenTest = true
+		}
+	}
+	if !lenTest {
+		problems = append(problems, "no comparison of the two lengths")
+	}
+	if len(problems) == 0 {
+		r.ok(rule, "equal", c.pos(fn.Pos()), "65536 octet pairs: a difference is reported exactly when the octets differ after folding A-Z")
+	} else {
+		r.fail(rule, "equal", c.pos(fn.Pos()), "%s", strings.Join(problems, "; "))
+	}
+}
